@@ -51,6 +51,8 @@ def cases(rng, tier, shard, nshards):
             pts, meta = gen.curve(rng, nmax=80)
         c = config(rng, len(pts))
         c.update({'points': pts, 'family': meta['family'], 'layout': gen.pick_layout(rng, pts)})
+        if rng.random() < 0.3:       # history: a second pipeline configuration on the SAME array
+            c['follow'] = config(rng, len(pts))
         yield c
     # bundled traces (the demos' actual inputs)
     traces = [('web0_reduced.csv', 1), ('usr0.csv', 1), ('web2.csv', 40 if tier == 'quick' else 1)]
@@ -80,11 +82,19 @@ def _subseq(a, b):
 
 
 def run_case(ctx, mods, case):
-    rdp, pp, cl, kr = mods['rdp'], mods['postprocessing'], mods['clustering'], mods['knee_ranking']
     if 'trace' in case:
         pts = np.ascontiguousarray(gen.trace(case['trace'])[::case['stride']])
     else:
         pts = gen.present(case['points'], case['layout'])
+    run_pipeline(ctx, mods, case, pts)
+    if case.get('follow'):
+        ctx.h('history', 'second pipeline on the same array')
+        run_pipeline(ctx, mods, dict(case['follow'], points=case.get('points'), family=case['family'],
+                                     **({'trace': case['trace']} if 'trace' in case else {})), pts)
+
+
+def run_pipeline(ctx, mods, case, pts):
+    rdp, pp, cl, kr = mods['rdp'], mods['postprocessing'], mods['clustering'], mods['knee_ranking']
     n = len(pts)
     s = case['simplifier']
     d, c, o = distance(mods, case['distance']), cost(mods, case['cost']), order(mods, case['order'])
